@@ -99,8 +99,12 @@ def _amounts(s, unit):
     if lo is not None:
         vals += [lo - unit, lo, lo + unit, hi - unit, hi, hi + unit,
                  pot - unit, pot, pot + unit]
-        span = int((hi - lo) / unit) if hi > lo else 0
-        vals.append(lo + (span // 2) * unit)
+        if hi != float('inf'):
+            span = int((hi - lo) / unit) if hi > lo else 0
+            vals.append(lo + (span // 2) * unit)
+        else:
+            # an unknown (infinite) stack: some amounts far above the rest
+            vals += [lo + 1000 * unit, lo + 10 ** 9 * unit]
         i = s.actor_index
         if i is not None:
             vals += [s.stacks[i] + s.bets[i], s.stacks[i] + s.bets[i] + unit]
